@@ -104,6 +104,8 @@ pub enum Inner {
     F64,
     VecI32,
     Point,
+    /// `struct W<'a>(Cow<'a, [f32]>)`: lifetime-parameterised, no Eq/Ord/Hash, PartialEq not reflexive
+    CowF32,
 }
 
 impl Inner {
@@ -116,6 +118,7 @@ impl Inner {
             Inner::F64 => "f64",
             Inner::VecI32 => "Vec<i32>",
             Inner::Point => "Point",
+            Inner::CowF32 => "Cow<'static, [f32]>",
         }
     }
     pub fn family(self) -> &'static str {
@@ -123,7 +126,7 @@ impl Inner {
             Inner::Str => "string",
             Inner::Int(_) => "integer",
             Inner::F32 | Inner::F64 => "float",
-            Inner::VecI32 | Inner::Point => "other",
+            Inner::VecI32 | Inner::Point | Inner::CowF32 => "other",
         }
     }
     /// module of `vlib::fns` holding the custom functions for this inner type
@@ -135,6 +138,7 @@ impl Inner {
             Inner::F64 => "ff64".into(),
             Inner::VecI32 => "fvec".into(),
             Inner::Point => "fpoint".into(),
+            Inner::CowF32 => "fcow".into(),
         }
     }
     pub fn entry_variant(self) -> &'static str {
@@ -156,6 +160,7 @@ impl Inner {
             Inner::F64 => "F64",
             Inner::VecI32 => "VecI32",
             Inner::Point => "Point",
+            Inner::CowF32 => "CowF32",
         }
     }
     pub fn is_float(self) -> bool {
@@ -165,7 +170,7 @@ impl Inner {
         matches!(self, Inner::Int(_))
     }
     pub fn is_other(self) -> bool {
-        matches!(self, Inner::VecI32 | Inner::Point)
+        matches!(self, Inner::VecI32 | Inner::Point | Inner::CowF32)
     }
 }
 
@@ -206,7 +211,7 @@ impl FnRef {
     pub fn new(name: &str, form: FnForm) -> Self {
         let idempotent = matches!(
             name,
-            "s_clamp" | "s_even" | "s_nan0" | "s_abs" | "s_trunc5" | "s_repl" | "s_sort" | "s_dedup" | "s_take3" | "g_s_sort" | "g_s_dedup" | "g_s_take3"
+            "s_clamp" | "s_even" | "s_nan0" | "s_abs" | "s_abs_all" | "s_trunc5" | "s_repl" | "s_sort" | "s_dedup" | "s_take3" | "g_s_sort" | "g_s_dedup" | "g_s_take3"
         );
         FnRef { name: name.to_string(), form, idempotent }
     }
@@ -483,6 +488,7 @@ impl Decl {
 
     pub fn tt(&self) -> String {
         match self.generic {
+            Generic::None if self.inner == Inner::CowF32 => format!("{}<'static>", self.type_name),
             Generic::None => self.type_name.clone(),
             Generic::T => format!("{}<Point>", self.type_name),
             Generic::VecT => format!("{}<i32>", self.type_name),
@@ -502,12 +508,17 @@ impl Decl {
             (_, _, Generic::T) => if by_ref { "&T".to_string() } else { "T".to_string() },
             (_, _, Generic::VecT) => if by_ref { "&Vec<T>".to_string() } else { "Vec<T>".to_string() },
             (Inner::Str, true, _) => "&str".to_string(),
+            (Inner::CowF32, true, _) => "&Cow<'_, [f32]>".to_string(),
+            (Inner::CowF32, false, _) => "Cow<'_, [f32]>".to_string(),
             (i, true, _) => format!("&{}", i.ty()),
             (i, false, _) => i.ty().to_string(),
         };
         match f.form {
             FnForm::Path | FnForm::ConstPath => p,
             FnForm::Closure => format!("|x| {p}(x)"),
+            // an elided lifetime in the annotation of a by-value closure parameter is a fresh one, unrelated to
+            // the lifetime of the declaration: such a sanitizer does not type-check whatever the macro does
+            FnForm::ClosureTyped if self.inner == Inner::CowF32 && !by_ref => format!("|x| {p}(x)"),
             FnForm::ClosureTyped => format!("|x: {arg_ty}| {p}(x)"),
             FnForm::ClosureMut => {
                 if by_ref {
@@ -617,6 +628,7 @@ impl Decl {
     /// the struct item following the attribute
     pub fn struct_text(&self) -> String {
         match self.generic {
+            Generic::None if self.inner == Inner::CowF32 => format!("pub struct {}<'a>(Cow<'a, [f32]>);", self.type_name),
             Generic::None => format!("pub struct {}({});", self.type_name, self.inner.ty()),
             Generic::T if self.default.is_some() => format!("pub struct {}<T: fpoint::HasX + Default>(T);", self.type_name),
             Generic::T => format!("pub struct {}<T: fpoint::HasX>(T);", self.type_name),
@@ -642,6 +654,9 @@ impl Decl {
         w!(o, "use vlib::types::*;");
         w!(o, "use vlib::types::Val as MVal;");
         w!(o, "use vlib::types::Vals as MVals;");
+        if self.inner == Inner::CowF32 {
+            w!(o, "use std::borrow::Cow;");
+        }
         // constants available to bound spellings
         if let Some(p) = self.const_prelude() {
             o.push_str(&p);
@@ -911,9 +926,11 @@ impl Decl {
         }
         if self.has(Tr::PartialEq) {
             w!(o, "    eq: vlib::g_eq!(),");
+            w!(o, "    eq_self: vlib::g_eq_self!(),");
         }
         if self.has(Tr::PartialOrd) && self.has(Tr::PartialEq) {
             w!(o, "    partial_cmp: vlib::g_partial_cmp!(),");
+            w!(o, "    partial_cmp_self: vlib::g_partial_cmp_self!(),");
         }
         if self.has(Tr::Ord) {
             w!(o, "    cmp: vlib::g_cmp!(),");
